@@ -175,7 +175,7 @@ def run(ctx):
         for k, v in r["distribution"].items():
             dist[(k if lbl == "main" else lbl + ":" + k)] = v
     ctx.cov["distribution"] = {"by_routine": dist, "tied_by_op": main["tied_by_op"], "oracle_failures": sum(r["n_failures"] for r in reports.values())}
-    for s in main["samples"]:
+    for s in (main["samples"] or []):
         ctx.sample(s)
 
     known = {k["id"]: k for k in c.known_findings("C20")}
